@@ -65,7 +65,7 @@ fn attack_strategy(tier: Tier) -> BoxedStrategy<Attack> {
         3 => proptest::collection::vec(any::<u8>(), 1..200).prop_map(Attack::Random),
         2 => proptest::collection::vec(prop_oneof![Just(b'*'), Just(b'$'), Just(b':'), Just(b'+'), Just(b'-'), Just(b'\r'), Just(b'\n'), Just(b'0'), Just(b'1'), Just(b'9')], 1..64).prop_map(Attack::Random),
         3 => frame_strategy(3, false).prop_map(Attack::NonCommand),
-        6 => (0u8..10, any::<u8>()).prop_map(|(v, k)| Attack::BadCommand(v, k)),
+        8 => (0u8..18, any::<u8>()).prop_map(|(v, k)| Attack::BadCommand(v, k)),
         3 => (1u16..u16::MAX, any::<bool>()).prop_map(|(f, c)| Attack::Truncated(f, c)),
         2 => (0u32..=maxlog, 0u32..1000, 0u8..4).prop_map(|(l, frac, v)| {
             let lo = 1u32 << l;
@@ -95,7 +95,7 @@ fn strategy(tier: Tier) -> BoxedStrategy<HostileCase> {
         }),
         4..24,
     );
-    (proptest::collection::vec(hostile, 1..=4), proptest::collection::vec(ctl, 1..=2))
+    (proptest::collection::vec(hostile, 1..=7), proptest::collection::vec(ctl, 1..=2))
         .prop_map(|(hostiles, controls)| HostileCase { hostiles, controls })
         .boxed()
 }
@@ -232,7 +232,18 @@ fn attack_bytes(a: &Attack, ncontrols: usize) -> (Vec<u8>, bool, &'static str) {
         }
         Attack::BadCommand(v, k) => {
             let ck = control_key(*k as usize % ncontrols.max(1), *k);
-            let b = match v % 10 {
+            let nil = F::Null;
+            let b = match v % 18 {
+                // a DEL/GET/SET whose leading arguments are fine and name CONTROL keys, followed
+                // by one malformed argument: nothing of it may be applied
+                10 => command(&[b"DEL", &ck, b"\xff\xfe"]),
+                11 => encoded(&F::Array(vec![F::Bulk(b"DEL".to_vec()), F::Bulk(ck.clone()), F::Int(5)])),
+                12 => encoded(&F::Array(vec![F::Bulk(b"DEL".to_vec()), F::Bulk(ck.clone()), nil.clone()])),
+                13 => encoded(&F::Array(vec![F::Bulk(b"DEL".to_vec()), F::Bulk(ck.clone()), F::Bulk(ck.clone()), F::Simple("x".into())])),
+                14 => encoded(&F::Array(vec![F::Bulk(b"SET".to_vec()), F::Bulk(ck.clone()), F::Int(7)])),
+                15 => encoded(&F::Array(vec![F::Bulk(b"SET".to_vec()), F::Bulk(ck.clone()), F::Bulk(b"v".to_vec()), nil])),
+                16 => encoded(&F::Array(vec![F::Bulk(b"DEL".to_vec()), F::Bulk(ck.clone()), F::Array(vec![])])),
+                17 => command(&[b"Del", &ck]),
                 0 => command(&[b"SET", &ck]),                              // missing value
                 1 => command(&[b"SET", &ck, b"x", b"extra"]),              // extra argument
                 2 => command(&[b"GET"]),                                   // missing key
@@ -282,7 +293,8 @@ fn exec(c: &HostileCase, env: &Env) -> Outcome {
         return out;
     }
     let dir = env.fresh_dir("hostile-store");
-    let mut srv = match start_child(&dir, 32) {
+    // a small limit: connection slots leaked by hostile connections would starve the others
+    let mut srv = match start_child(&dir, 4) {
         Ok(s) => s,
         Err(e) => {
             out.inconclusive = Some(e);
@@ -407,11 +419,10 @@ fn exec(c: &HostileCase, env: &Env) -> Outcome {
             ));
             break 'conns;
         }
-        if cl.eof {
-            cl.close();
-        } else {
-            idle_conns.push(cl);
-        }
+        // hostile connections end here (idle ones too): with the small connection limit a later
+        // connection must never wait for a slot that is legitimately held
+        let _ = &mut idle_conns;
+        cl.close();
     }
 
     // collect the control results
